@@ -275,7 +275,15 @@ def check(ctx):
             if kind in ('min', 'max') and fam == 'mixed':
                 fam = 'dyadic'
             vals = c05.gen_values(rng, n, shape, fam)
-            if shape and int(np.prod(shape)) >= 2 and rng.random() < 0.2:
+            if kind in ('min', 'max') and shape and n >= 3 and rng.random() < 0.3:
+                # boolean frames (masks): the element-wise AND / OR over the stream, component by component
+                p_true = rng.choice([0.5, 0.85, 0.15])
+                vals = [{'arr': np.array([rng.random() < p_true for _ in range(int(np.prod(shape)))]).reshape(shape).tolist(), 'dtype': 'bool'} for _ in range(n)]
+                # (the stream starts in the neutral state — all set for the AND, all clear for the OR — so every later frame matters)
+                vals[0] = {'arr': np.full(shape, kind == 'min').tolist(), 'dtype': 'bool'}
+                fam = 'bool'
+                ctx.count('boolean_frames')
+            if shape and int(np.prod(shape)) >= 2 and rng.random() < 0.2 and fam != 'bool':
                 # components on very different footings: one of order ten, the others a large offset with a tiny spread
                 # (1000 + k/1024): what happens to one component must not depend on the others
                 k = int(np.prod(shape))
